@@ -41,6 +41,9 @@ import (
 // panics), so it is not enumerated; the executor still supports it for replays.
 var c14Kinds = []string{"err", "panic", "stmt", "norows", "cancel_nil", "cancel_err"}
 
+// panics whose value is an error / a runtime error: enumerated on short programs at the first level
+var c14PanicKinds = []string{"panic_err", "panic_rt"}
+
 func c14Progs(letters string, maxLen int) []string {
 	out := []string{""}
 	prev := []string{""}
@@ -75,6 +78,17 @@ func c14BulkOps(variants []string) []c14Op {
 	var ops []c14Op
 	for _, v := range variants {
 		ops = append(ops, c14Op{Kind: "bulk", Bulk: v})
+	}
+	return ops
+}
+
+// c14FaultOps: like c14TxOps without the fault-free variants (for additional fault kinds on programs already listed).
+func c14FaultOps(progs []string, kinds []string) []c14Op {
+	var ops []c14Op
+	for _, o := range c14TxOps(progs, kinds) {
+		if o.Tx.Fault.Kind != "" {
+			ops = append(ops, o)
+		}
 	}
 	return ops
 }
@@ -123,6 +137,8 @@ func c14Levels(thorough bool, tgt c14Target) [3][]c14Op {
 	if !thorough {
 		add(0, c14TxOps(c14Progs("iudxq", 3), c14Kinds)...)
 		add(0, c14TxOps([]string{"o", "oi", "io"}, c14Kinds)...)
+		add(0, c14FaultOps(c14Progs("iu", 2), c14PanicKinds)...)
+		add(0, c14BulkOps([]string{"B", "Bc", "cB", "Bs", "BcB"})...)
 		add(0, c14NestOps([]string{"i"}, []string{"i", "u"}, []string{"", "err", "panic"}, []string{"", "err", "panic"}, []bool{false, true})...)
 		add(0, c14BulkOps(append(c14Progs("gsc", 3), "n", "gn", "ng", "gng"))...)
 		add(0, stmt)
@@ -144,6 +160,10 @@ func c14Levels(thorough bool, tgt c14Target) [3][]c14Op {
 		}
 	}
 	add(0, c14TxOps(withO, c14Kinds)...)
+	add(0, c14FaultOps(c14Progs("iudx", 3), c14PanicKinds)...)
+	add(0, c14BulkOps([]string{"B", "Bc", "cB", "Bs", "sB", "Bn", "BcB", "BB", "BBc"})...)
+	add(1, c14FaultOps([]string{"i"}, c14PanicKinds)...)
+	add(1, c14BulkOps([]string{"Bc"})...)
 	add(0, c14NestOps([]string{"i", "ui"}, []string{"", "i", "u", "q"}, []string{"", "err", "panic", "stmt", "cancel_nil"}, []string{"", "err", "panic"}, []bool{false, true})...)
 	add(0, c14BulkOps(c14Progs("gscn", 4))...)
 	add(0, stmt)
